@@ -261,7 +261,7 @@ class Minor(object):
         >>> print(ra.ra_str(n_dec=1))
         5h 45' 33.6''
         >>> print(dec.dms_str(n_dec=0))
-        23d 23' 53.0''
+        23d 23' 52.0''
         >>> print(round(p, 2))
         45.73
         """
@@ -362,6 +362,8 @@ class Minor(object):
         ra = Angle(atan2(eta, xi), radians=True)
         dec = Angle(atan2(zeta, sqrt(xi * xi + eta * eta)), radians=True)
         r_sun = sqrt(xs * xs + ys * ys + zs * zs)
+        # The geocentric vector has changed: recompute its length
+        delta = sqrt(xi * xi + eta * eta + zeta * zeta)
         psi = acos((xi * xs + eta * ys + zeta * zs) / (r_sun * delta))
         psi = Angle(psi, radians=True)
         return ra, dec, psi
